@@ -114,7 +114,7 @@ def check_handler(run, S, mod, f, shape, vpos, n, lo, want_status, fld):
         if i.op == "alloca" and "resolution_error" in (i.get("allocty") or ""):
             err = ("alloca", f.name, i.id, 0)
     if err is None:
-        problems.append(("noerror", "handler builds no resolution_error"))
+        run.broken.append("%s builds no resolution_error in its own body (delegation to a helper is not modelled)" % f.dname[:120])
         return problems
     # stores into the error object
     status = arity = None
